@@ -316,6 +316,26 @@ fn synth(op: &str, a: &Args, cs: &ConstraintSystemRef<Fq>) -> R<String> {
             let c = ev.compress_to_field().map_err(se)?.value().map(|v| fqh(&v)).unwrap_or_else(|_| "?".into());
             Ok(format!("{};inst={}", c, inst.join(",")))
         }
+        "lazy2" => {
+            // two variables allocated from (witnessed) encodings s1, s2 — valid or not —, neither decoded yet; `pre` lists the operands
+            // forced to their element before the binary gadget `bop` runs.  Verdict and value must not depend on `pre`.
+            let s1 = a.fq("s1")?;
+            let s2 = a.fq("s2")?;
+            let v1 = <ElementVar as AllocVar<Fq, Fq>>::new_witness(cs.clone(), || Ok(s1)).map_err(se)?;
+            let v2 = <ElementVar as AllocVar<Fq, Fq>>::new_witness(cs.clone(), || Ok(s2)).map_err(se)?;
+            let pre = a.get("pre").unwrap_or("");
+            if pre.contains('1') { let _ = elem_value(&v1); }
+            if pre.contains('2') { let _ = elem_value(&v2); }
+            match a.get("bop").unwrap_or("") {
+                "iseq" => Ok(v1.is_eq(&v2).map_err(se)?.value().map(|b| if b { "1" } else { "0" }).unwrap_or("?").to_string()),
+                "enforce_eq" => { v1.enforce_equal(&v2).map_err(se)?; Ok("-".into()) }
+                "enforce_neq" => { v1.enforce_not_equal(&v2).map_err(se)?; Ok("-".into()) }
+                "cenforce_eq0" => { let c = Boolean::new_witness(cs.clone(), || Ok(false)).map_err(se)?; v1.conditional_enforce_equal(&v2, &c).map_err(se)?; Ok("-".into()) }
+                "add" => Ok(elem_value(&(v1 + v2))),
+                "select" => { let c = Boolean::new_witness(cs.clone(), || Ok(true)).map_err(se)?; Ok(elem_value(&ElementVar::conditionally_select(&c, &v1, &v2).map_err(se)?)) }
+                _ => Err("bad-op".into()),
+            }
+        }
         "lazy" => {
             // from=enc s=<fq> | from=elem e=<enc>; ops=enc,elem,…  -> per step value and constraint delta
             let ops = a.get("ops").unwrap_or("");
